@@ -60,6 +60,7 @@ def work(args):
     def record(cfg, opts, r, v, route='api'):
         st['configs'] += 1
         st['v_' + v['verdict']] += 1
+        if v['verdict'] == 'undecided': st['undecided: ' + str(v.get('why'))[:60]] += 1
         if v['verdict'] == 'ok' and v.get('nontrivial'):
             st['nontrivial'] += 1
             fps.add(flatcheck.delivery_fingerprint(r)[:12])
